@@ -161,6 +161,10 @@ func c17Features() []c17Feature {
 		d["parameters"] = m("Body", m("name", "b", "in", "body", "required", true, "schema", m("$ref", "#/definitions/D")))
 		c17AddParam(c17Op(d, "post"), m("$ref", "#/parameters/Body"))
 	})
+	add("shared body parameter with inline x-nullable schema", func(d map[string]any) {
+		d["parameters"] = m("Body", m("name", "b", "in", "body", "required", true, "schema", m("type", "object", "properties", m("nick", m("type", "string", "x-nullable", true)))))
+		c17AddParam(c17Op(d, "post"), m("$ref", "#/parameters/Body"))
+	})
 	add("shared formData parameter", func(d map[string]any) {
 		d["parameters"] = m("F", m("name", "f", "in", "formData", "type", "string", "required", true))
 		op := c17Op(d, "post")
